@@ -279,6 +279,51 @@ def check_eq_variants(spec: dict) -> core.CaseResult:
                            summary={'a': repr(a)[:300], 'b': repr(b)[:300]})
 
 
+# -- copies that cross into an interpreter with another hash seed ---------------------------------------------------------
+
+def check_xproc_batch(spec: dict) -> core.CaseResult:
+    import json
+    import subprocess
+    import sys
+    trees = [t for t in spec['trees'] if not has_nan(t)]
+    if not trees:
+        return core.CaseResult()
+    d = tempfile.mkdtemp(prefix='c15x-', dir=os.environ.get('VERIF_SCRATCH'))
+    findings = []
+    try:
+        batch = []
+        for t in trees:
+            obj = ptrees.build(t)
+            hash(obj)       # a task that has been hashed (and possibly cached its hash) before being copied
+            batch.append({'tree': t, 'blobs': {p: pickle.dumps(obj, protocol=p) for p in (0, 2, pickle.HIGHEST_PROTOCOL)}})
+        fin, fout = os.path.join(d, 'in.pickle'), os.path.join(d, 'out.json')
+        with open(fin, 'wb') as f:
+            pickle.dump(batch, f)
+        env = dict(os.environ)
+        env['PYTHONHASHSEED'] = str(spec['hashseed'])
+        with open(os.path.join(d, 'log'), 'wb') as log:
+            p = subprocess.Popen([sys.executable, '-m', 'pbt.c15_child', fin, fout], env=env, stdout=log, stderr=log, stdin=subprocess.DEVNULL,
+                                 start_new_session=True)
+            try:
+                p.wait(timeout=120)
+            except subprocess.TimeoutExpired:
+                p.kill()
+        if not os.path.exists(fout):
+            return core.CaseResult(inconclusive=True, summary={'log': open(os.path.join(d, 'log'), 'rb').read()[-400:].decode('utf-8', 'replace')})
+        res = json.load(open(fout))
+        for t, probs in zip(trees, res['problems']):
+            for pr in probs:
+                what = pr.split(': ', 1)[1] if ': ' in pr else pr
+                findings.append(core.Finding('C15:copy-in-another-interpreter:' + what.split(' raised')[0].replace(' ', '-')[:80], f'{pr}; task {ptrees.build(t)!r}'[:400]))
+    finally:
+        shutil.rmtree(d, ignore_errors=True)
+    seen = set()
+    findings = [f for f in findings if not (f.signature in seen or seen.add(f.signature))]
+    return core.CaseResult(findings=findings, nontrivial=any(ptrees.contains(t, ('str', 'enum')) for t in trees),
+                           labels=('xproc_pickle', f'hashseed={spec["hashseed"] % 4}'), summary={'n_trees': len(trees)},
+                           key=[core.case_hash(t) for t in trees[:8]])
+
+
 # -- after-run pickles carry no results / context ------------------------------------------------------
 
 def _rm_run(self):
@@ -355,6 +400,7 @@ def plan(tier: str) -> list[dict]:
     jobs = [{'engine': 'supported', 'n': 300 if q else 15000, 'hashseed': i % 8} for i in range(9)]
     jobs += [{'engine': 'unsupported', 'n': 400 if q else 15000, 'hashseed': i % 8} for i in range(5)]
     jobs += [{'engine': 'after_run', 'n': 25 if q else 600, 'hashseed': i} for i in range(2)]
+    jobs += [{'engine': 'xproc_pickle', 'n': 8 if q else 150, 'hashseed': i} for i in range(2)]
     jobs += [{'engine': 'eq_variants', 'n': 400 if q else 15000, 'hashseed': i} for i in range(2)]
     return jobs
 
@@ -363,6 +409,10 @@ def run_job(rec: core.Recorder, job: dict, seed: int) -> None:
     e = job['engine']
     if e == 'supported':
         core.run_hypothesis(rec, e, ptrees.task_tree(nan=True, subclasses=True, max_leaves=10), check_supported, max_examples=job['n'], seed=seed)
+    elif e == 'xproc_pickle':
+        strat = st.builds(lambda ts, hs: {'trees': ts, 'hashseed': hs}, st.lists(ptrees.task_tree(max_leaves=8, markers=False), min_size=10, max_size=30),
+                          st.integers(1, 4000))
+        core.run_hypothesis(rec, e, strat, check_xproc_batch, max_examples=job['n'], seed=seed, shrink=False)
     elif e == 'eq_variants':
         strat = st.builds(lambda t, picks: {'tree': t, 'picks': picks},
                           ptrees.task_tree(max_leaves=10, markers=False), st.lists(st.integers(0, 5), min_size=4, max_size=30))
@@ -377,6 +427,8 @@ def run_job(rec: core.Recorder, job: dict, seed: int) -> None:
 
 def replay(record: dict) -> core.CaseResult:
     case = record['case']
+    if 'trees' in case:
+        return check_xproc_batch(case)
     if 'picks' in case:
         return check_eq_variants(case)
     if 'backend' in case:
